@@ -276,6 +276,10 @@ impl Exec {
     }
     pub fn get(&self, k: u8) -> Result<Option<Vec<u8>>, String> {
         let h = self.h();
+        // a get on an empty pool spins forever (single-threaded driver: nobody can return a reader)
+        if h.verif_pool().0 == 0 {
+            return Err("HANG: the reader pool is empty (a reader was lost by an earlier operation), get would spin forever".into());
+        }
         catch(|| h.get(b(key_bytes(k))))?.map(|o| o.map(|v| v.to_vec())).map_err(|e| format!("Err: {}", e))
     }
     /// Apply one operation to the implementation and the model; returns (what the implementation
@@ -300,8 +304,12 @@ impl Exec {
                 (format!("{:?}", r), "Ok(Ok(()))".into())
             }
             Op::Reopen => {
-                let r = self.reopen();
-                (format!("{:?}", r.map(Ok::<(), String>)), "Ok(Ok(()))".into())
+                let r: Result<Result<(), String>, String> = match self.reopen() {
+                    Ok(()) => Ok(Ok(())),
+                    Err(m) if m.starts_with("PANIC") => Err(m),
+                    Err(m) => Ok(Err(m)),
+                };
+                (format!("{:?}", r), "Ok(Ok(()))".into())
             }
         }
     }
@@ -385,6 +393,7 @@ fn check_reads(e: &Exec, keys: &[u8], what: &str, out: &mut Vec<(String, String,
                 };
                 out.push((format!("{}:{}", what, class), format!("get({}) = {:?}, model says {:?}", hex(&key_bytes(*k)), got.as_ref().map(|v| hex(v)), want.as_ref().map(|v| hex(v))), Some(step)));
             }
+            Err(m) if m.starts_with("HANG") => out.push((format!("{}:get-hangs-reader-lost", what), format!("get({}) -> {}", hex(&key_bytes(*k)), m), Some(step))),
             Err(m) if m.starts_with("PANIC") => out.push((format!("{}:get-panic", what), format!("get({}) -> {}", hex(&key_bytes(*k)), m), Some(step))),
             Err(m) => out.push((format!("{}:get-error", what), format!("get({}) -> {}", hex(&key_bytes(*k)), m), Some(step))),
         }
